@@ -325,6 +325,20 @@ func (ap *AP) T(axes ...int) (retVal AP, a []int, err error) {
 	}
 
 	dims := len(ap.shape)
+	// the axes have to be a permutation of the dimensions (the shortcuts for vectors and for transposes that change
+	// nothing, below, do not look at them again)
+	for i, x := range axes {
+		if x < 0 || x >= dims {
+			err = errors.Errorf(invalidAxis, x, dims)
+			return
+		}
+		for _, y := range axes[:i] {
+			if x == y {
+				err = errors.Errorf(repeatedAxis, x)
+				return
+			}
+		}
+	}
 	if len(axes) == 0 || axes == nil {
 		axes = make([]int, dims)
 		for i := 0; i < dims; i++ {
